@@ -1,3 +1,572 @@
-//! C08 (stub: no cases yet)
+//! C08 — konst's slice iterators (Iter, IterCopied, Windows, Chunks, RChunks, ChunksExact,
+//! RChunksExact, ArrayChunks and their *Rev types) vs the std iterators of the same name.
+//!
+//! One line per (iterator type, element kind, slice length, size, front/back history):
+//!   family  c08.<kind>          args  <u|z> <len> <size> <history over F,B>
+//!   items = what every call of the history returned (sub-slices as offset:len views)
+//!   alt   = what the OPPOSITE call returned on a copy() taken just before each call
+//!           (the copy is stepped first; the original must not notice)
+//!   rem   = as_slice() / remainder() before the first and after every call
+//! Histories are enumerated exhaustively (every word over {F,B} up to exhaustion, pruned
+//! once a call returned None), plus a seeded random stream of long slices.
 use crate::common::*;
-pub fn run(_cfg: &Cfg, _out: &mut Out) {}
+use konst::slice as ks;
+use std::panic::{catch_unwind, AssertUnwindSafe};
+
+// ---------------------------------------------------------------- element kinds
+
+trait Elem: Copy + 'static {
+    const ZST: bool;
+    const NAME: &'static str;
+    fn show(&self) -> String;
+}
+impl Elem for u32 {
+    const ZST: bool = false;
+    const NAME: &'static str = "u";
+    fn show(&self) -> String {
+        self.to_string()
+    }
+}
+impl Elem for () {
+    const ZST: bool = true;
+    const NAME: &'static str = "z";
+    fn show(&self) -> String {
+        "u".to_string()
+    }
+}
+
+/// index of the element a reference points at (`u` for zero-sized elements)
+fn idx_of<T: Elem>(whole: &[T], x: &T) -> String {
+    if T::ZST {
+        return "u".to_string();
+    }
+    let w = whole.as_ptr() as usize;
+    let p = x as *const T as usize;
+    let sz = std::mem::size_of::<T>();
+    if p < w || (p - w) % sz != 0 || (p - w) / sz >= whole.len() {
+        return format!("OUTSIDE({})", p as isize - w as isize);
+    }
+    ((p - w) / sz).to_string()
+}
+
+// ---------------------------------------------------------------- by-value double-ended iterators
+
+#[derive(Clone, Copy, PartialEq, Eq)]
+enum End {
+    F,
+    B,
+}
+use End::*;
+fn flip(e: End) -> End {
+    match e {
+        F => B,
+        B => F,
+    }
+}
+
+trait DeIt: Sized {
+    type Item;
+    fn nx(self) -> Option<(Self::Item, Self)>;
+    fn nb(self) -> Option<(Self::Item, Self)>;
+    fn cp(&self) -> Self;
+}
+
+macro_rules! impl_deit {
+    ([$($g:tt)*] $ty:ty, $item:ty) => {
+        impl<$($g)*> DeIt for $ty {
+            type Item = $item;
+            fn nx(self) -> Option<(Self::Item, Self)> {
+                self.next()
+            }
+            fn nb(self) -> Option<(Self::Item, Self)> {
+                self.next_back()
+            }
+            fn cp(&self) -> Self {
+                self.copy()
+            }
+        }
+    };
+}
+impl_deit!(['a, T] ks::Iter<'a, T>, &'a T);
+impl_deit!(['a, T] ks::IterRev<'a, T>, &'a T);
+impl_deit!(['a, T: Copy] ks::IterCopied<'a, T>, T);
+impl_deit!(['a, T: Copy] ks::IterCopiedRev<'a, T>, T);
+impl_deit!(['a, T] ks::Windows<'a, T>, &'a [T]);
+impl_deit!(['a, T] ks::WindowsRev<'a, T>, &'a [T]);
+impl_deit!(['a, T] ks::Chunks<'a, T>, &'a [T]);
+impl_deit!(['a, T] ks::ChunksRev<'a, T>, &'a [T]);
+impl_deit!(['a, T] ks::RChunks<'a, T>, &'a [T]);
+impl_deit!(['a, T] ks::RChunksRev<'a, T>, &'a [T]);
+impl_deit!(['a, T] ks::ChunksExact<'a, T>, &'a [T]);
+impl_deit!(['a, T] ks::ChunksExactRev<'a, T>, &'a [T]);
+impl_deit!(['a, T] ks::RChunksExact<'a, T>, &'a [T]);
+impl_deit!(['a, T] ks::RChunksExactRev<'a, T>, &'a [T]);
+impl_deit!(['a, T, const N: usize] ks::ArrayChunks<'a, T, N>, &'a [T; N]);
+impl_deit!(['a, T, const N: usize] ks::ArrayChunksRev<'a, T, N>, &'a [T; N]);
+
+/// the std oracle: `main` is the real std iterator (for the *Rev kinds: `.rev()` of it);
+/// `shadow` is a plain forward std iterator stepped at the same end of the SLICE, only
+/// used to read `as_slice()` / `remainder()` (std's Rev / Copied adapters hide them)
+#[derive(Clone)]
+struct StdW<I, J> {
+    main: I,
+    shadow: J,
+    flip: bool,
+}
+impl<I: DoubleEndedIterator + Clone, J: DoubleEndedIterator + Clone> DeIt for StdW<I, J> {
+    type Item = I::Item;
+    fn nx(mut self) -> Option<(I::Item, Self)> {
+        let x = self.main.next();
+        if self.flip {
+            self.shadow.next_back();
+        } else {
+            self.shadow.next();
+        }
+        x.map(|x| (x, self))
+    }
+    fn nb(mut self) -> Option<(I::Item, Self)> {
+        let x = self.main.next_back();
+        if self.flip {
+            self.shadow.next();
+        } else {
+            self.shadow.next_back();
+        }
+        x.map(|x| (x, self))
+    }
+    fn cp(&self) -> Self {
+        self.clone()
+    }
+}
+fn no_shadow() -> std::iter::Empty<()> {
+    std::iter::empty()
+}
+
+// ---------------------------------------------------------------- walking histories
+
+fn step<I: DeIt>(it: I, e: End) -> Option<(I::Item, I)> {
+    match e {
+        F => it.nx(),
+        B => it.nb(),
+    }
+}
+
+struct StepOut<I> {
+    alt: String,
+    item: String,
+    rem: String,
+    next: I,
+    done: bool,
+}
+
+/// one call of a history: copy, step the copy the other way, then step the original
+fn one<I: DeIt>(it: I, e: End, show: &dyn Fn(I::Item) -> String, rem: &dyn Fn(&I) -> String) -> StepOut<I> {
+    let c = it.cp();
+    let alt = match step(c, flip(e)) {
+        Some((x, _)) => format!("S({})", show(x)),
+        None => "N".to_string(),
+    };
+    let keep = it.cp();
+    match step(it, e) {
+        Some((x, n)) => StepOut { alt, item: format!("S({})", show(x)), rem: rem(&n), next: n, done: false },
+        None => StepOut { alt, item: "N".to_string(), rem: rem(&keep), next: keep, done: true },
+    }
+}
+
+#[derive(Default)]
+struct Acc {
+    items: Vec<String>,
+    alt: Vec<String>,
+    rem: Vec<String>,
+}
+impl Acc {
+    fn push(&mut self, item: String, alt: String, rem: String) {
+        self.items.push(item);
+        self.alt.push(alt);
+        self.rem.push(rem);
+    }
+    fn pop(&mut self) {
+        self.items.pop();
+        self.alt.pop();
+        self.rem.pop();
+    }
+    fn render(&self, with_rem: bool) -> String {
+        let mut s = format!("items=[{}];alt=[{}]", self.items.join(","), self.alt.join(","));
+        if with_rem {
+            s.push_str(&format!(";rem=[{}]", self.rem.join(",")));
+        }
+        s
+    }
+}
+
+struct Case<'c, I: DeIt, S> {
+    fam: &'c str,
+    elem: &'static str,
+    len: usize,
+    size: usize,
+    with_rem: bool,
+    show: &'c dyn Fn(I::Item) -> String,
+    irem: &'c dyn Fn(&I) -> String,
+    srem: &'c dyn Fn(&S) -> String,
+    /// None: every history; Some: only this one
+    script: Option<&'c [End]>,
+}
+
+fn emit<I: DeIt, S>(c: &Case<I, S>, out: &mut Out, hist: &[End], imp: &str, st: &Acc) {
+    let h: String = hist.iter().map(|e| if *e == F { 'F' } else { 'B' }).collect();
+    let args = format!("{} {} {} {}", c.elem, c.len, c.size, h);
+    let yielded = st.items.iter().filter(|s| s.starts_with('S')).count();
+    let tag = if yielded <= 1 {
+        "-".to_string()
+    } else {
+        let nf = hist.iter().filter(|e| **e == F).count();
+        let dir = if nf == hist.len() {
+            "front"
+        } else if nf == 0 {
+            "back"
+        } else {
+            "mixed"
+        };
+        format!("{}{}", dir, if c.size != 0 && c.len % c.size != 0 { "+uneven" } else { "" })
+    };
+    out.line(c.fam, &args, imp, &st.render(c.with_rem), &tag);
+}
+
+fn walk<I: DeIt, S: DeIt<Item = I::Item>>(
+    c: &Case<I, S>,
+    out: &mut Out,
+    it: I,
+    st: S,
+    hist: &mut Vec<End>,
+    ai: &mut Acc,
+    as_: &mut Acc,
+) {
+    let depth = hist.len();
+    let both = [F, B];
+    let dirs: &[End] = match c.script {
+        None => &both,
+        Some(s) => {
+            if depth >= s.len() {
+                return;
+            }
+            &s[depth..depth + 1]
+        }
+    };
+    let max_depth = match c.script {
+        None => c.len + 2,
+        Some(s) => s.len(),
+    };
+    for &e in dirs {
+        let so = one(st.cp(), e, c.show, c.srem);
+        let ri = catch_unwind(AssertUnwindSafe(|| one(it.cp(), e, c.show, c.irem)));
+        hist.push(e);
+        as_.push(so.item, so.alt, so.rem);
+        match ri {
+            Err(_) => emit(c, out, hist, "PANIC", as_),
+            Ok(io) => {
+                ai.push(io.item, io.alt, io.rem);
+                if io.done || so.done || hist.len() >= max_depth {
+                    emit(c, out, hist, &ai.render(c.with_rem), as_);
+                } else {
+                    walk(c, out, io.next, so.next, hist, ai, as_);
+                }
+                ai.pop();
+            }
+        }
+        as_.pop();
+        hist.pop();
+    }
+}
+
+struct P<'p> {
+    elem: &'static str,
+    len: usize,
+    size: usize,
+    script: Option<&'p [End]>,
+}
+
+#[allow(clippy::too_many_arguments)]
+fn drive<I: DeIt, S: DeIt<Item = I::Item>>(
+    out: &mut Out,
+    p: &P,
+    fam: &str,
+    with_rem: bool,
+    it: I,
+    st: S,
+    show: &dyn Fn(I::Item) -> String,
+    irem: &dyn Fn(&I) -> String,
+    srem: &dyn Fn(&S) -> String,
+) {
+    let c = Case { fam, elem: p.elem, len: p.len, size: p.size, with_rem, show, irem, srem, script: p.script };
+    let mut ai = Acc::default();
+    let mut as_ = Acc::default();
+    ai.rem.push(irem(&it));
+    as_.rem.push(srem(&st));
+    let mut hist = Vec::new();
+    walk(&c, out, it, st, &mut hist, &mut ai, &mut as_);
+}
+
+/// size 0: the constructor must panic like std's
+fn ctor0(out: &mut Out, p: &P, fam: &str, imp: String, st: String) {
+    out.line(fam, &format!("{} {} 0 F", p.elem, p.len), &imp, &st, "size0");
+}
+/// like common::catch, for closures that borrow slices of a generic element type
+fn catch_s(f: impl FnOnce() -> String) -> String {
+    match catch_unwind(AssertUnwindSafe(f)) {
+        Ok(s) => s,
+        Err(_) => "PANIC".to_string(),
+    }
+}
+fn built<X>(_: X) -> String {
+    "constructed".to_string()
+}
+
+// ---------------------------------------------------------------- the iterator kinds
+
+fn k_iter<T: Elem>(out: &mut Out, p: &P, whole: &[T], variants: bool) {
+    let show = |x: &T| idx_of(whole, x);
+    let sh = |s: &StdW<std::slice::Iter<T>, std::slice::Iter<T>>| view_of(whole, s.shadow.as_slice());
+    let shr = |s: &StdW<std::iter::Rev<std::slice::Iter<T>>, std::slice::Iter<T>>| view_of(whole, s.shadow.as_slice());
+    let std_f = || StdW { main: whole.iter(), shadow: whole.iter(), flip: false };
+    let std_r = || StdW { main: whole.iter().rev(), shadow: whole.iter(), flip: true };
+    let ir = |i: &ks::Iter<T>| view_of(whole, i.as_slice());
+    let irr = |i: &ks::IterRev<T>| view_of(whole, i.as_slice());
+    drive(out, p, "c08.iter", true, ks::iter(whole), std_f(), &show, &ir, &sh);
+    drive(out, p, "c08.iter_rev", true, ks::iter(whole).rev(), std_r(), &show, &irr, &shr);
+    if variants {
+        drive(out, p, "c08.iter", true, ks::iter(whole).rev().rev(), std_f(), &show, &ir, &sh);
+        drive(out, p, "c08.iter_rev", true, ks::iter(whole).copy().rev().copy(), std_r(), &show, &irr, &shr);
+        // the IntoIterWrapper::const_into_iter constructors (&[T] and &&[T])
+        drive(out, p, "c08.iter", true, konst::iter::into_iter!(whole), std_f(), &show, &ir, &sh);
+        let rr: &&[T] = &whole;
+        drive(out, p, "c08.iter", true, konst::iter::into_iter!(rr), std_f(), &show, &ir, &sh);
+    }
+}
+
+/// `&[T; N]` and `&&[T; N]` into Iter
+fn k_iter_array<T: Elem, const N: usize>(out: &mut Out, elem: &'static str, arr: &[T; N]) {
+    let whole: &[T] = &arr[..];
+    let p = P { elem, len: N, size: 1, script: None };
+    let show = |x: &T| idx_of(whole, x);
+    let sh = |s: &StdW<std::slice::Iter<T>, std::slice::Iter<T>>| view_of(whole, s.shadow.as_slice());
+    let std_f = || StdW { main: arr.iter(), shadow: arr.iter(), flip: false };
+    let ir = |i: &ks::Iter<T>| view_of(whole, i.as_slice());
+    drive(out, &p, "c08.iter", true, konst::iter::into_iter!(arr), std_f(), &show, &ir, &sh);
+    let rr: &&[T; N] = &arr;
+    drive(out, &p, "c08.iter", true, konst::iter::into_iter!(rr), std_f(), &show, &ir, &sh);
+}
+
+fn k_copied<T: Elem>(out: &mut Out, p: &P, whole: &[T], variants: bool) {
+    let show = |x: T| x.show();
+    type C<'a, T> = std::iter::Copied<std::slice::Iter<'a, T>>;
+    let sh = |s: &StdW<C<T>, std::slice::Iter<T>>| view_of(whole, s.shadow.as_slice());
+    let shr = |s: &StdW<std::iter::Rev<C<T>>, std::slice::Iter<T>>| view_of(whole, s.shadow.as_slice());
+    let std_f = || StdW { main: whole.iter().copied(), shadow: whole.iter(), flip: false };
+    let std_r = || StdW { main: whole.iter().copied().rev(), shadow: whole.iter(), flip: true };
+    let ir = |i: &ks::IterCopied<T>| view_of(whole, i.as_slice());
+    let irr = |i: &ks::IterCopiedRev<T>| view_of(whole, i.as_slice());
+    drive(out, p, "c08.iter_copied", true, ks::iter_copied(whole), std_f(), &show, &ir, &sh);
+    drive(out, p, "c08.iter_copied_rev", true, ks::iter_copied(whole).rev(), std_r(), &show, &irr, &shr);
+    if variants {
+        drive(out, p, "c08.iter_copied", true, ks::iter_copied(whole).rev().rev(), std_f(), &show, &ir, &sh);
+    }
+}
+
+fn k_windows<T: Elem>(out: &mut Out, p: &P, whole: &[T], variants: bool) {
+    let n = p.size;
+    if n == 0 {
+        ctor0(out, p, "c08.windows", catch_s(|| built(ks::windows(whole, 0))), catch_s(|| built(whole.windows(0))));
+        ctor0(out, p, "c08.windows_rev", catch_s(|| built(ks::windows(whole, 0).rev())), catch_s(|| built(whole.windows(0).rev())));
+        return;
+    }
+    let show = |x: &[T]| view_of(whole, x);
+    let std_f = || StdW { main: whole.windows(n), shadow: no_shadow(), flip: false };
+    let std_r = || StdW { main: whole.windows(n).rev(), shadow: no_shadow(), flip: true };
+    drive(out, p, "c08.windows", false, ks::windows(whole, n), std_f(), &show, &|_| String::new(), &|_| String::new());
+    drive(out, p, "c08.windows_rev", false, ks::windows(whole, n).rev(), std_r(), &show, &|_| String::new(), &|_| String::new());
+    if variants {
+        drive(out, p, "c08.windows", false, ks::windows(whole, n).rev().rev(), std_f(), &show, &|_| String::new(), &|_| String::new());
+    }
+}
+
+fn k_chunks<T: Elem>(out: &mut Out, p: &P, whole: &[T], variants: bool) {
+    let n = p.size;
+    if n == 0 {
+        ctor0(out, p, "c08.chunks", catch_s(|| built(ks::chunks(whole, 0))), catch_s(|| built(whole.chunks(0))));
+        ctor0(out, p, "c08.rchunks", catch_s(|| built(ks::rchunks(whole, 0))), catch_s(|| built(whole.rchunks(0))));
+        return;
+    }
+    let show = |x: &[T]| view_of(whole, x);
+    let e = |_: &_| String::new();
+    drive(out, p, "c08.chunks", false, ks::chunks(whole, n), StdW { main: whole.chunks(n), shadow: no_shadow(), flip: false }, &show, &|_| String::new(), &e);
+    drive(out, p, "c08.chunks_rev", false, ks::chunks(whole, n).rev(), StdW { main: whole.chunks(n).rev(), shadow: no_shadow(), flip: true }, &show, &|_| String::new(), &|_| String::new());
+    drive(out, p, "c08.rchunks", false, ks::rchunks(whole, n), StdW { main: whole.rchunks(n), shadow: no_shadow(), flip: false }, &show, &|_| String::new(), &|_| String::new());
+    drive(out, p, "c08.rchunks_rev", false, ks::rchunks(whole, n).rev(), StdW { main: whole.rchunks(n).rev(), shadow: no_shadow(), flip: true }, &show, &|_| String::new(), &|_| String::new());
+    if variants {
+        drive(out, p, "c08.chunks", false, ks::chunks(whole, n).rev().rev(), StdW { main: whole.chunks(n), shadow: no_shadow(), flip: false }, &show, &|_| String::new(), &|_| String::new());
+        drive(out, p, "c08.rchunks", false, ks::rchunks(whole, n).rev().rev(), StdW { main: whole.rchunks(n), shadow: no_shadow(), flip: false }, &show, &|_| String::new(), &|_| String::new());
+    }
+}
+
+fn k_exact<T: Elem>(out: &mut Out, p: &P, whole: &[T], variants: bool) {
+    let n = p.size;
+    if n == 0 {
+        ctor0(out, p, "c08.chunks_exact", catch_s(|| built(ks::chunks_exact(whole, 0))), catch_s(|| built(whole.chunks_exact(0))));
+        ctor0(out, p, "c08.rchunks_exact", catch_s(|| built(ks::rchunks_exact(whole, 0))), catch_s(|| built(whole.rchunks_exact(0))));
+        return;
+    }
+    let show = |x: &[T]| view_of(whole, x);
+    // std's remainder() is read from a forward std iterator stepped at the same slice end
+    let sce = |s: &StdW<std::slice::ChunksExact<T>, std::slice::ChunksExact<T>>| view_of(whole, s.shadow.remainder());
+    let scer = |s: &StdW<std::iter::Rev<std::slice::ChunksExact<T>>, std::slice::ChunksExact<T>>| view_of(whole, s.shadow.remainder());
+    let sre = |s: &StdW<std::slice::RChunksExact<T>, std::slice::RChunksExact<T>>| view_of(whole, s.shadow.remainder());
+    let srer = |s: &StdW<std::iter::Rev<std::slice::RChunksExact<T>>, std::slice::RChunksExact<T>>| view_of(whole, s.shadow.remainder());
+    let ice = |i: &ks::ChunksExact<T>| view_of(whole, i.remainder());
+    let icer = |i: &ks::ChunksExactRev<T>| view_of(whole, i.remainder());
+    let ire = |i: &ks::RChunksExact<T>| view_of(whole, i.remainder());
+    let irer = |i: &ks::RChunksExactRev<T>| view_of(whole, i.remainder());
+    drive(out, p, "c08.chunks_exact", true, ks::chunks_exact(whole, n),
+        StdW { main: whole.chunks_exact(n), shadow: whole.chunks_exact(n), flip: false }, &show, &ice, &sce);
+    drive(out, p, "c08.chunks_exact_rev", true, ks::chunks_exact(whole, n).rev(),
+        StdW { main: whole.chunks_exact(n).rev(), shadow: whole.chunks_exact(n), flip: true }, &show, &icer, &scer);
+    drive(out, p, "c08.rchunks_exact", true, ks::rchunks_exact(whole, n),
+        StdW { main: whole.rchunks_exact(n), shadow: whole.rchunks_exact(n), flip: false }, &show, &ire, &sre);
+    drive(out, p, "c08.rchunks_exact_rev", true, ks::rchunks_exact(whole, n).rev(),
+        StdW { main: whole.rchunks_exact(n).rev(), shadow: whole.rchunks_exact(n), flip: true }, &show, &irer, &srer);
+    if variants {
+        drive(out, p, "c08.chunks_exact", true, ks::chunks_exact(whole, n).rev().rev(),
+            StdW { main: whole.chunks_exact(n), shadow: whole.chunks_exact(n), flip: false }, &show, &ice, &sce);
+        drive(out, p, "c08.rchunks_exact", true, ks::rchunks_exact(whole, n).rev().rev(),
+            StdW { main: whole.rchunks_exact(n), shadow: whole.rchunks_exact(n), flip: false }, &show, &ire, &sre);
+    }
+}
+
+fn k_array<T: Elem, const N: usize>(out: &mut Out, p: &P, whole: &[T], variants: bool) {
+    let show = |x: &[T; N]| view_of(whole, &x[..]);
+    let (arrs, rem) = whole.as_chunks::<N>();
+    let srem = view_of(whole, rem);
+    let std_f = || StdW { main: arrs.iter(), shadow: no_shadow(), flip: false };
+    let std_r = || StdW { main: arrs.iter().rev(), shadow: no_shadow(), flip: true };
+    let ir = |i: &ks::ArrayChunks<T, N>| view_of(whole, i.remainder());
+    drive(out, p, "c08.array_chunks", true, ks::array_chunks::<T, N>(whole), std_f(), &show, &ir, &|_| srem.clone());
+    // ArrayChunksRev has no remainder()
+    drive(out, p, "c08.array_chunks_rev", false, ks::array_chunks::<T, N>(whole).rev(), std_r(), &show, &|_| String::new(), &|_| String::new());
+    if variants {
+        drive(out, p, "c08.array_chunks", true, ks::array_chunks::<T, N>(whole).rev().rev(), std_f(), &show, &ir, &|_| srem.clone());
+    }
+    // as_chunks / as_rchunks themselves
+    let arrs_str = |a: &[[T; N]]| format!("{}*{}", view_of(whole, a.as_flattened()), a.len());
+    let args = format!("{} {} {}", p.elem, p.len, N);
+    if p.script.is_none() {
+        let imp = catch_s(|| {
+            let (a, r) = ks::as_chunks::<T, N>(whole);
+            fields(&[("arrs", arrs_str(a)), ("rem", view_of(whole, r))])
+        });
+        let st = fields(&[("arrs", arrs_str(arrs)), ("rem", view_of(whole, rem))]);
+        out.line("c08.as_chunks", &args, &imp, &st, if p.len >= N { "arrays" } else { "-" });
+        let imp = catch_s(|| {
+            let (r, a) = ks::as_rchunks::<T, N>(whole);
+            fields(&[("rem", view_of(whole, r)), ("arrs", arrs_str(a))])
+        });
+        let (r, a) = whole.as_rchunks::<N>();
+        let st = fields(&[("rem", view_of(whole, r)), ("arrs", arrs_str(a))]);
+        out.line("c08.as_rchunks", &args, &imp, &st, if p.len >= N { "arrays" } else { "-" });
+    }
+}
+
+macro_rules! by_n {
+    ($n:expr, $f:ident, $t:ty, $args:tt, [$($k:literal)*]) => {
+        match $n {
+            $($k => by_n!(@call $f, $t, $k, $args),)*
+            _ => {}
+        }
+    };
+    (@call $f:ident, $t:ty, $k:literal, ($($a:expr),*)) => {
+        $f::<$t, $k>($($a),*)
+    };
+}
+fn k_array_n<T: Elem>(out: &mut Out, p: &P, whole: &[T], variants: bool) {
+    if p.size == 0 {
+        // std's as_chunks::<0> does not compile: no std oracle
+        ctor0(out, p, "c08.array_chunks", catch_s(|| built(ks::array_chunks::<T, 0>(whole))), "-".to_string());
+        let args = format!("{} {} 0", p.elem, p.len);
+        out.line("c08.as_chunks", &args, &catch_s(|| built(ks::as_chunks::<T, 0>(whole))), "-", "size0");
+        out.line("c08.as_rchunks", &args, &catch_s(|| built(ks::as_rchunks::<T, 0>(whole))), "-", "size0");
+        return;
+    }
+    by_n!(p.size, k_array, T, (out, p, whole, variants), [1 2 3 4 5 6 7 8 9 10 11 12 13 14 15 16]);
+}
+const MAX_N: usize = 16;
+
+fn all_kinds<T: Elem>(out: &mut Out, p: &P, whole: &[T], variants: bool) {
+    k_windows(out, p, whole, variants);
+    k_chunks(out, p, whole, variants);
+    k_exact(out, p, whole, variants);
+    if p.size <= MAX_N {
+        k_array_n(out, p, whole, variants);
+    }
+}
+
+fn sweep<T: Elem>(out: &mut Out, data: &[T], max_len: usize) {
+    for len in 0..=max_len {
+        let whole = &data[..len];
+        let p = P { elem: T::NAME, len, size: 1, script: None };
+        k_iter(out, &p, whole, true);
+        k_copied(out, &p, whole, true);
+        for size in 0..=len + 1 {
+            let p = P { elem: T::NAME, len, size, script: None };
+            all_kinds(out, &p, whole, len <= 6);
+        }
+    }
+}
+
+fn random<T: Elem>(out: &mut Out, data: &[T], rng: &mut Rng, count: usize) {
+    for _ in 0..count {
+        let len = rng.below(data.len() as u64 + 1) as usize;
+        let size = match rng.below(4) {
+            0 => 1 + rng.below(3) as usize,
+            1 => 1 + rng.below(MAX_N as u64) as usize,
+            2 => (len / (1 + rng.below(4) as usize)).max(1),
+            _ => 1 + rng.below(len as u64 + 2) as usize,
+        };
+        let bias = [1u64, 5, 9][rng.below(3) as usize];
+        let script: Vec<End> = (0..len + 2).map(|_| if rng.below(10) < bias { F } else { B }).collect();
+        let whole = &data[..len];
+        let p = P { elem: T::NAME, len, size, script: Some(&script) };
+        match rng.below(6) {
+            0 => {
+                let p1 = P { elem: T::NAME, len, size: 1, script: Some(&script) };
+                k_iter(out, &p1, whole, false);
+                k_copied(out, &p1, whole, false);
+            }
+            1 => k_windows(out, &p, whole, false),
+            2 | 3 => k_chunks(out, &p, whole, false),
+            4 => k_exact(out, &p, whole, false),
+            _ => {
+                let p = P { elem: T::NAME, len, size: 1 + (size - 1) % MAX_N, script: Some(&script) };
+                k_array_n(out, &p, whole, false);
+            }
+        }
+    }
+}
+
+pub fn run(cfg: &Cfg, out: &mut Out) {
+    let data_u: Vec<u32> = (0..64).collect();
+    let data_z: Vec<()> = vec![(); 64];
+    let max_len = if cfg.thorough { 12 } else { 9 };
+    sweep(out, &data_u, max_len);
+    sweep(out, &data_z, max_len);
+    // arrays into Iter (IntoIterWrapper<&[T; N]> / <&&[T; N]>)
+    k_iter_array::<u32, 0>(out, "u", &[]);
+    k_iter_array::<u32, 1>(out, "u", &[0]);
+    k_iter_array::<u32, 2>(out, "u", &[0, 1]);
+    k_iter_array::<u32, 3>(out, "u", &[0, 1, 2]);
+    k_iter_array::<u32, 5>(out, "u", &[0, 1, 2, 3, 4]);
+    k_iter_array::<(), 0>(out, "z", &[]);
+    k_iter_array::<(), 1>(out, "z", &[()]);
+    k_iter_array::<(), 4>(out, "z", &[(); 4]);
+    // seeded random: long slices, one random history each
+    let mut rng = Rng::new(cfg.seed);
+    let count = if cfg.thorough { 12000 } else { 2500 };
+    random(out, &data_u[..40], &mut rng, count);
+    random(out, &data_z[..40], &mut rng, count / 3);
+}
